@@ -206,6 +206,8 @@ K_REFSITE_LEN = ("transmission(): refsite actuator length composes orientations 
                  "uses xquat*site_quat")
 K_REFSITE_MOM = ("transmission(): refsite actuator moment subtracts the Jacobian of the reference site instead of the Jacobian of the "
                  "site point carried by the reference body (C engine fix 5b2a1c9b9)")
+K_STATIC_ACC = ("acceleration-stage sensors on a body welded to the world: the C engine (tree and 3.13 wheel) returns 0 because cacc is "
+                "not computed for static bodies; MJX returns the gravity-consistent value (C-side root cause, cf. C28)")
 K_NOTOPT = "qacc is not the minimiser of the C engine's constraint problem although MJX's own solver reports a stationary point"
 
 
@@ -484,8 +486,12 @@ def check_model(J, lib, part, item, cap):
             if ORDER.index(SENSOR_AFTER[stage]) >= lim:
                 continue
             sname = mujoco.mjtSensor(stype).name
+            ot, oi = int(mt.sensor_objtype[s_]), int(mt.sensor_objid[s_])
+            sb = {1: lambda: oi, 2: lambda: oi, 5: lambda: int(mt.geom_bodyid[oi]), 6: lambda: int(mt.site_bodyid[oi])}.get(ot, lambda: -1)()
             if stage == 3 and xtype.size == 0:
                 key = K_SENSOR_ACC
+            elif stage == 3 and sb > 0 and int(mt.body_weldid[sb]) == 0:
+                key = K_STATIC_ACC
             else:
                 key = "sensor %s differs @ %s" % (sname, fam)
             a_, n_ = int(mt.sensor_adr[s_]), int(mt.sensor_dim[s_])
